@@ -46,6 +46,9 @@ pub struct Globals {
     pub stackvec_ok: Result<(), String>,
     /// rule 31: `struct HeapVec { data: Vec<Limb> }`
     pub heapvec_ok: Result<(), String>,
+    /// per file: the constants / statics / unit structs / upper-case imports (C-PAT inside macro
+    /// expansions, which the pre-pass cannot see)
+    pub value_names: HashMap<String, std::collections::HashSet<String>>,
 }
 
 impl Globals {
@@ -205,6 +208,11 @@ pub struct Cx<'a> {
     pub raw_mode: bool,
     /// rule 31: heapvec.rs over the std `Vec` primitives
     pub heap_mode: bool,
+    /// C-MUTREF: the next path may be a bare `&mut` parameter (operand of `*`, `.field`, method
+    /// receiver, index base, reference / slice argument)
+    pub mutref_ok: bool,
+    /// `lower_seq` on behalf of `any`: an iterator variable is refused
+    pub seq_temp_only: bool,
 }
 
 pub fn vname(x: &str) -> String {
@@ -239,6 +247,8 @@ impl<'a> Cx<'a> {
             float_param: false,
             raw_mode: false,
             heap_mode: false,
+            mutref_ok: false,
+            seq_temp_only: false,
         }
     }
 
@@ -294,8 +304,27 @@ impl<'a> Cx<'a> {
         n
     }
 
+    /// C-CONST / C-MUTREF: may a new binding be called `x`?  Not like a global constant that is
+    /// resolved by name, and not like a `&mut` parameter / `self` in scope: the updated value of
+    /// such a parameter is returned under its name (rule 7), a shadow would be returned instead
+    pub fn name_ok(&self, sp: proc_macro2::Span, x: &str) -> R<()> {
+        if self.g.consts.contains_key(x) || crate::check::GLOBAL_CONSTS.contains(&x) {
+            return err(sp, format!("the binding `{}` is spelled like a global constant that is resolved by name", x));
+        }
+        if let Some((_, v)) = self.lookup(x) {
+            if v.mutref {
+                return err(sp, format!("the binding `{}` reuses the name of a `&mut` parameter", x));
+            }
+        }
+        if x == "self" {
+            return err(sp, "a binding called `self`");
+        }
+        Ok(())
+    }
+
     /// declare a new local in the innermost scope; returns its Gallina name
-    pub fn declare(&mut self, _sp: proc_macro2::Span, x: &str, ty: Ty, mutref: bool) -> R<String> {
+    pub fn declare(&mut self, sp: proc_macro2::Span, x: &str, ty: Ty, mutref: bool) -> R<String> {
+        self.name_ok(sp, x)?;
         let cname = self.new_cname(x, self.scopes.len() - 1);
         self.scopes.last_mut().unwrap().insert(x.to_string(), Var::plain(ty, mutref, cname.clone()));
         Ok(cname)
@@ -655,6 +684,10 @@ impl<'a> Cx<'a> {
         if self.macro_depth >= 16 {
             return err(mac.span(), "macro expansion too deep");
         }
+        // textual scoping: the definition must precede the use
+        if mac.span().start().line <= def.end_line && self.macro_depth == 0 {
+            return err(mac.span(), format!("macro `{}!` is used before the end of its definition", name));
+        }
         let ts = match crate::macros::expand(def, mac.tokens.clone()) {
             Ok(t) => t,
             Err(e) => return err(mac.span(), format!("macro `{}!`: {}", name, e)),
@@ -664,7 +697,9 @@ impl<'a> Cx<'a> {
             Err(e) => return err(mac.span(), format!("macro `{}!`: the expansion does not parse: {}", name, e)),
         };
         // the pre-pass does not see macro bodies: no attributes / items in the expansion
-        if let Err(e) = crate::check::check_expansion_stmts(&stmts) {
+        let empty = std::collections::HashSet::new();
+        let vn = g.value_names.get(&self.file).unwrap_or(&empty);
+        if let Err(e) = crate::check::check_expansion_stmts(&stmts, vn) {
             return err(mac.span(), format!("macro `{}!`: {}", name, e));
         }
         // the expansion is its own scope; top-level `let`s would need macro hygiene
@@ -691,7 +726,10 @@ impl<'a> Cx<'a> {
             Some(c) => c,
             None => return err(mac.span(), "debug_assert! without condition"),
         };
-        if let Err(e) = crate::check::check_expansion_expr(cond) {
+        let empty = std::collections::HashSet::new();
+        let g = self.g;
+        let vn = g.value_names.get(&self.file).unwrap_or(&empty);
+        if let Err(e) = crate::check::check_expansion_expr(cond, vn) {
             return err(cond.span(), format!("debug_assert!: {}", e));
         }
         for extra in it {
